@@ -50,6 +50,7 @@ type c08Probe struct {
 	Signer int    `json:"s"`               // -1 nobody, 0..2 pool key, 3 the stranger's key
 	Alter  int    `json:"alter,omitempty"` // 0 no, 1 operations swapped after signing, 2 edit clock changed after signing
 	Warm   int    `json:"warm,omitempty"`  // k+1: before this probe is read, a commit carrying the SAME operations and genuinely signed by pool key k is read in the same process
+	Unsort bool   `json:"unsorted,omitempty"` // the commit's tree object lists "ops" before the clock entries (written as raw bytes: git-bug's own writer sorts)
 	Empty  int    `json:"empty,omitempty"` // 1, 2: the probe is a commit WITHOUT operations ("ops": [] / null) by the author, at time t+1, on top of a root commit (time t) by an author without keys
 }
 type c08Write struct {
@@ -228,6 +229,8 @@ func c08ProbesFor(vs []c08Version) []c08Probe {
 		res = append(res, c08Probe{T: t, Signer: s, Alter: 1}, c08Probe{T: t, Signer: s, Alter: 2})
 		// the same operations, first seen genuinely signed by the right key, then met again unsigned / signed by a stranger
 		res = append(res, c08Probe{T: t, Signer: -1, Warm: s + 1}, c08Probe{T: t, Signer: c08PoolSize, Warm: s + 1})
+		// the same commits with a tree that lists "ops" before the clocks: the verdict must not depend on the order
+		res = append(res, c08Probe{T: t, Signer: -1, Unsort: true}, c08Probe{T: t, Signer: s, Unsort: true})
 		// a commit without operations is a commit like any other: unsigned, signed by a stranger, by the right key
 		res = append(res, c08Probe{T: t, Signer: -1, Empty: 1}, c08Probe{T: t, Signer: c08PoolSize, Empty: 2}, c08Probe{T: t, Signer: s, Empty: 1 + int(t%2)})
 	}
@@ -500,6 +503,49 @@ func c08CommitWarm(repo repository.ClockedRepo, gr *git.Repository, author ident
 	return h, id, warm, err
 }
 
+// c08Unsorted writes the same tree again with "ops" (and "version-4") before the clock entries. go-git's encoder
+// refuses unsorted trees, its decoder and git-bug's reader accept them: the object is written as raw bytes.
+func c08Unsorted(repo repository.ClockedRepo, gr *git.Repository, tree repository.Hash) (repository.Hash, error) {
+	entries, err := repo.ReadTree(tree)
+	if err != nil {
+		return "", err
+	}
+	var first, rest []repository.TreeEntry
+	for _, e := range entries {
+		if e.Name == "ops" || strings.HasPrefix(e.Name, "version-") {
+			first = append(first, e)
+		} else {
+			rest = append(rest, e)
+		}
+	}
+	var buf bytes.Buffer
+	for _, e := range append(first, rest...) {
+		if e.ObjectType != repository.Blob {
+			return "", fmt.Errorf("unexpected tree entry")
+		}
+		h := plumbing.NewHash(string(e.Hash))
+		fmt.Fprintf(&buf, "100644 %s\x00", e.Name)
+		buf.Write(h[:])
+	}
+	obj := gr.Storer.NewEncodedObject()
+	obj.SetType(plumbing.TreeObject)
+	w, err := obj.Writer()
+	if err != nil {
+		return "", err
+	}
+	if _, err := w.Write(buf.Bytes()); err != nil {
+		return "", err
+	}
+	if err := w.Close(); err != nil {
+		return "", err
+	}
+	h, err := gr.Storer.SetEncodedObject(obj)
+	if err != nil {
+		return "", err
+	}
+	return repository.Hash(h.String()), nil
+}
+
 // c08Plain is an identity without keys (set per case by Run): it authors the root below an empty probe.
 var c08Plain identity.Interface
 
@@ -548,6 +594,12 @@ func c08CommitInner(repo repository.ClockedRepo, gr *git.Repository, author iden
 	tree, id, err := c08Tree(repo, author, fmt.Sprintf("probe %d", n), p.T, int64(1600001000+n))
 	if err != nil {
 		return "", "", "", err
+	}
+	if p.Unsort {
+		tree, err = c08Unsorted(repo, gr, tree)
+		if err != nil {
+			return "", "", "", err
+		}
 	}
 	if p.Warm > 0 && p.Alter == 0 {
 		warm, err := repo.StoreSignedCommit(tree, c08Keys()[p.Warm-1].PGPEntity())
@@ -950,6 +1002,9 @@ func (c08Driver) Run(raw json.RawMessage) Case {
 		pterms = append(pterms, fmt.Sprintf("mkprobe %s %s %s %s %s %s", coqN(o.T), s, coqBool(p.Alter > 0), coqBool(p.Empty > 0), coqN(uint64(o.Read)), coqN(uint64(o.Merge))))
 		if p.Empty > 0 {
 			tagset["probe:without-operations"] = true
+		}
+		if p.Unsort {
+			tagset["probe:unsorted-tree"] = true
 		}
 		tagset["probe:"+o.Kind+"="+verdict[o.Read]] = true
 		if o.Read == 2 {
